@@ -410,3 +410,115 @@ func runS15(c *core.Ctx) {
 	c.Check(sortName == "Stable", "ast.(linkedPairs).Sort/stable", fd.Pos(), "sorts with sort.Stable", "Sort uses sort."+sortName+" instead of sort.Stable: pairs with equal keys may be reordered (objects with more than 12 pairs), so Get, Index, iteration and MarshalJSON disagree with the order-preserving model")
 	c.Check(buildPos.IsValid() && buildPos > sortPos, "ast.(linkedPairs).Sort/index-rebuilt", fd.Pos(), "index rebuilt (first occurrence wins) after the sort", "Sort does not rebuild the key index after sorting: Swap leaves the entry of a duplicated key pointing at the pair that moved last, so Get returns the later duplicate once the object has an index (more than 16 pairs)")
 }
+
+// S8c: clearing or replacing a whole Pair through a pointer outside the container's own
+// methods must keep the key index in step (delete the old hash, or go through
+// linkedPairs.Unset/Set). E5: the stream decoder advances its cursor by what the inner decoder
+// consumed.
+
+func init() {
+	register(&core.Rule{ID: "S8c", Min: 1,
+		Doc: "Index maintenance outside the container: in ast.Node methods, every store of a whole Pair through a pointer (`*p = Pair{...}`) is accompanied in the same function by the removal of the old key from the hash index (`delete(<pairs>.index, p.hash)`) - or the function uses linkedPairs.Unset/Set instead; a cleared slot whose key stays in the index makes Get chase a stale slot number (nil dereference after Pop).",
+		Run: runS8c})
+	register(&core.Rule{ID: "E5", Min: 1,
+		Doc: "Stream framing follows the decoder: in StreamDecoder.Decode the cursor scanp is advanced using the inner decoder's position (Decoder.Pos()) after a successful decode, not only the end of the span the fast skipper framed - the skipper may frame several whitespace-separated scalars as one span, and advancing by the span drops the values after the first.",
+		Run: runE5})
+}
+
+func runS8c(c *core.Ctx) {
+	p := c.Prog
+	pk := p.Pkg("ast")
+	pairObj := core.Obj(pk, "Pair")
+	if pk == nil || pairObj == nil {
+		c.Undecided("ast.Pair", token.NoPos, "not found")
+		return
+	}
+	n := 0
+	for _, fd := range core.FuncDecls(pk) {
+		if fd.Body == nil || core.RecvName(fd) != "Node" || strings.HasSuffix(p.Fset.Position(fd.Pos()).Filename, "_test.go") {
+			continue
+		}
+		fn := core.FuncName(pk, fd)
+		var stores []token.Pos
+		deletes := false
+		ast.Inspect(fd.Body, func(nd ast.Node) bool {
+			switch x := nd.(type) {
+			case *ast.AssignStmt:
+				for _, l := range x.Lhs {
+					st, ok := ast.Unparen(l).(*ast.StarExpr)
+					if !ok {
+						continue
+					}
+					t := p.TypeOf(st.X)
+					pt, ok := t.(*types.Pointer)
+					if !ok {
+						continue
+					}
+					if nt, ok := types.Unalias(pt.Elem()).(*types.Named); ok && nt.Obj() == pairObj {
+						stores = append(stores, x.Pos())
+					}
+				}
+			case *ast.CallExpr:
+				if id, ok := x.Fun.(*ast.Ident); ok && id.Name == "delete" && len(x.Args) == 2 && strings.HasSuffix(exprStr(x.Args[0]), ".index") {
+					deletes = true
+				}
+			}
+			return true
+		})
+		for i, pos := range stores {
+			n++
+			cn := fn + "/pair-store#" + itoa(i+1)
+			c.Analysed(fn)
+			if deletes {
+				c.OK(cn, pos, "whole-pair store with the old key removed from the index")
+			} else {
+				c.Bad(cn, pos, "%s overwrites a whole Pair through a pointer but never removes the old key from the hash index: for objects with more than 16 members the index keeps pointing at the cleared slot, and after the slot range shrinks (Pop) Get(key) dereferences nil", fn)
+			}
+		}
+	}
+	if n == 0 {
+		c.OK("ast.(Node)/pair-stores", pairObj.Pos(), "no whole-pair store outside the container methods")
+	}
+}
+
+func runE5(c *core.Ctx) {
+	p := c.Prog
+	pk := p.Pkg("internal/decoder/api")
+	fd := core.FuncDecl(pk, "StreamDecoder", "Decode")
+	cn := "internal/decoder/api.(StreamDecoder).Decode/advance"
+	if fd == nil || fd.Body == nil {
+		c.Undecided(cn, token.NoPos, "not found")
+		return
+	}
+	c.Analysed(core.FuncName(pk, fd))
+	// position of the inner Decode call, of a Pos() call after it, and of the scanp assignment
+	var decPos, posPos, setPos token.Pos
+	ast.Inspect(fd.Body, func(n ast.Node) bool {
+		switch x := n.(type) {
+		case *ast.CallExpr:
+			if se, ok := x.Fun.(*ast.SelectorExpr); ok {
+				if se.Sel.Name == "Decode" && strings.HasSuffix(exprStr(se.X), ".Decoder") && !decPos.IsValid() {
+					decPos = x.Pos()
+				}
+				if se.Sel.Name == "Pos" && strings.HasSuffix(exprStr(se.X), ".Decoder") && decPos.IsValid() && !posPos.IsValid() {
+					posPos = x.Pos()
+				}
+			}
+		case *ast.AssignStmt:
+			for _, l := range x.Lhs {
+				if se, ok := ast.Unparen(l).(*ast.SelectorExpr); ok && se.Sel.Name == "scanp" && decPos.IsValid() && x.Pos() > decPos && !setPos.IsValid() {
+					setPos = x.Pos()
+				}
+			}
+		}
+		return true
+	})
+	switch {
+	case !decPos.IsValid() || !setPos.IsValid():
+		c.Undecided(cn, fd.Pos(), "inner Decode call or scanp update not found")
+	case posPos.IsValid() && posPos < setPos:
+		c.OK(cn, setPos, "scanp is set after consulting Decoder.Pos()")
+	default:
+		c.Bad(cn, setPos, "after the inner decode the cursor is moved to the end of the skipped span without consulting the decoder's own position: when the fast skipper frames `1 2 3` as one span only the first value is returned and the rest of the span is dropped (the stream then ends with a clean io.EOF)")
+	}
+}
